@@ -14,7 +14,7 @@ EXPLANATION = (
     "for each (gain, curve, bucket k) and every input whose bucket is k the interpolated value lies in 0..32768 and is monotone inside the bucket and across the boundary to bucket k+1.  "
     "Composition (by reading the code: the stages are sequential and the only data flow is the stage value): monotone o monotone, range-preserving o range-preserving."
 )
-BOUNDS = {"quick": {"helper": "one target per controller kind for 10 seeded types; 17 targets; duplicate module", "L1": "60 seeded tuples incl. corner quantizations 0/1/2/3/32767/32768 and windows of width 0; u over 0..32768 (complete)",
+BOUNDS = {"quick": {"helper": "one target per controller kind for 10 seeded types; 17 targets; duplicate module", "L1": "60 seeded (target controller, quantization, window, orientation) tuples -- always including positive-minimum, negative-minimum, compact and zero-based ranges, corner quantizations 0/1/2/3/32767/32768 and windows of width 0; the parameter tuple is captured from the real on_value_changed; u over 0..32768 (complete)",
                     "L2": "default curve x gain 256: 80 buckets (both ends, the middle, 72 seeded); default curve x gain 1024: 24 buckets; one seeded monotone curve x gain 300: 24 buckets; each with in-bucket and cross-boundary monotonicity"},
           "thorough": {"helper": "every type", "L1": "600 tuples", "L2": "default + 4 seeded monotone curves x 8 gains, all buckets"}}
 OUTSIDE = ["curves other than the listed tables", "parameter tuples outside the grid", "the inference bucket(v+1) in {bucket(v), bucket(v)+1} and 0 <= bucket <= 256 (argued from min(v*gain/256, 32768) with gain <= 1024; not a solver result)",
@@ -183,32 +183,105 @@ def spans():
     return sorted(out)
 
 
+def capture_tuple(mt, ctl_name, gain, q, wmin, wmax):
+    """Run the REAL MultiCtl.on_value_changed for one link with convert_value replaced by a recorder:
+    the parameter tuple handed to the kernel (window swap, destination ends, vmax) and the offset
+    applied to its result are taken from the code under test, not re-derived here."""
+    import rv.api  # noqa
+    import rv.modules.multictl as mcm
+    from rv.api import Project
+    from rv.modules import MODULE_CLASSES
+    p = Project()
+    tgt = p.new_module(MODULE_CLASSES[mt])
+    mc = p.new_module(mcm.MultiCtl, gain=gain, quantization=q)
+    mc >> tgt
+    num = type(tgt).controllers[ctl_name].number
+    mc.mappings.values[0] = mcm.MultiCtl.Mapping((wmin, wmax, num, 0, 0, 0, 0, 0))
+    rec = {}
+    real = mcm.convert_value
+    t = type(tgt).controllers[ctl_name].value_type
+
+    def recorder(*a):
+        rec["args"] = a
+        return 0   # any in-range result: the target then receives 0 + offset
+
+    mcm.convert_value = recorder
+    try:
+        before = getattr(tgt, ctl_name)
+        try:
+            mc.value = 1
+        except Exception as e:  # noqa
+            rec["error"] = repr(e)
+        after = getattr(tgt, ctl_name)
+    finally:
+        mcm.convert_value = real
+    if "args" not in rec:
+        return None
+    g_, q_, smin, smax, dmin, dmax, vmax, value, curve = rec["args"]
+    offset = after - 0 if "error" not in rec else None
+    return {"params": [g_, q_, smin, smax, dmin, dmax, vmax], "offset": offset, "tmin": t.min, "tmax": t.max, "error": rec.get("error")}
+
+
 def l1_obs(tier, rnd):
+    """post-curve stage, one obligation per (target controller, quantization, window, orientation): the tuple is
+    captured from the real on_value_changed (see capture_tuple); gain 256 / no curve isolates the stage"""
+    from rv.controller import CompactRange, Range
+    from rv.modules import MODULE_CLASSES
+    targets = []
+    for mt, cls in MODULE_CLASSES.items():
+        if mt in ("Output", "MetaModule", "MultiCtl"):
+            continue
+        for n, c in cls.controllers.items():
+            t = c.value_type
+            if isinstance(t, Range) and t.max > t.min and c._attached:
+                targets.append((mt, n, t.min, t.max, isinstance(t, CompactRange)))
+    # every distinct (min, max, kind) at least once in thorough; quick: seeded sample that always contains a positive-minimum,
+    # a negative-minimum, a compact and a zero-based range
+    byshape = {}
+    for tg in targets:
+        byshape.setdefault((tg[2], tg[3], tg[4]), tg)
+    shapes = sorted(byshape)
+    must = [[s_ for s_ in shapes if s_[0] > 0], [s_ for s_ in shapes if s_[0] < 0 and not s_[2]], [s_ for s_ in shapes if s_[2]], [s_ for s_ in shapes if s_[0] == 0]]
     obs = []
-    sp = spans()
     qs = [0, 1, 2, 3, 32767, 32768, 100, 4096]
     n = 60 if tier == "quick" else 600
     seen = set()
-    while len(obs) < n:
-        D, compact = rnd.choice(sp)
+    i = 0
+    while len(obs) < n and i < 20 * n:
+        i += 1
+        pool = must[len(obs) % 4] if len(obs) < 24 and must[len(obs) % 4] else shapes
+        mt, cn, tmin, tmax, compact = byshape[rnd.choice(pool)]
+        D = tmax - tmin
         q = rnd.choice(qs + [rnd.randint(0, 32768)])
         if compact:
-            lo_w, hi_w = sorted((rnd.randint(0, D), rnd.randint(0, D)))
+            w = sorted((rnd.randint(0, D), rnd.randint(0, D)))
         else:
-            lo_w, hi_w = rnd.choice([(0, 32768), (0, 0), (32768, 32768), tuple(sorted((rnd.randint(0, 32768), rnd.randint(0, 32768)))), (100, 20000)])
+            w = list(rnd.choice([(0, 32768), (0, 0), (32768, 32768), tuple(sorted((rnd.randint(0, 32768), rnd.randint(0, 32768)))), (100, 20000)]))
         rev = rnd.choice([False, True])
-        key = (D, compact, q, lo_w, hi_w, rev)
+        wmin, wmax = (w[1], w[0]) if rev else (w[0], w[1])
+        if wmin == wmax:
+            rev = False
+        key = (mt, cn, q, wmin, wmax)
         if key in seen:
             continue
         seen.add(key)
-        vmax = None if compact else D
-        # what MultiCtl.on_value_changed passes: smin <= smax after the swap; a reversed window swaps the destination ends
-        params = [256, q, lo_w, hi_w, (D if rev else 0), (0 if rev else D), vmax]
-        payload = {"kind_of_job": "convert_value_staged", "params": params, "curve": None, "out_lo": 0, "out_hi": D, "direction": -1 if rev else 1, "timeout": 120 if tier == "quick" else 400,
-                   "need_both": False, "functions": ["rv/modules/multictl.py:convert_value"],
-                   "replay_src": CV_REPLAY.format(params=params, curve=None, direction=-1 if rev else 1, lo=0, hi=D) + "\n\ndef h(model=None):\n    return scan()\n"}
-        obs.append(Ob(f"L1.{len(obs)}", "", f"post-curve stage: quantization {q}, window [{lo_w}, {hi_w}], target span {D} ({'compact' if compact else 'scaled'}), {'reversed' if rev else 'normal'}: result within [0, {D}] and monotone for every u in 0..32768",
-                      group="L1", shape=f"convert_value(256, {q}, {lo_w}, {hi_w}, {params[4]}, {params[5]}, {vmax}, u, None)", symbolic="u over 0..32768", timeout=payload["timeout"], engine="F", payload=payload))
+        cap = capture_tuple(mt, cn, 256, q, wmin, wmax)
+        if cap is None or cap["offset"] is None:
+            # the real code refused even the recorder's 0: report as an obligation that fails concretely
+            src = f"from vf.prelude import *\n\ndef h():\n    print({(mt, cn, q, wmin, wmax, cap)!r})\n    return False\n"
+            obs.append(Ob(f"L1.{len(obs)}", src, f"on_value_changed for {mt}.{cn} could not be driven (captured: {cap})", engine="C", group="L1"))
+            continue
+        params = cap["params"]
+        off = cap["offset"]
+        # the value delivered is kernel result + offset; it must lie in the target's declared range
+        out_lo, out_hi = tmin - off, tmax - off
+        direction = -1 if rev else 1
+        payload = {"kind_of_job": "convert_value_staged", "params": params, "curve": None, "out_lo": out_lo, "out_hi": out_hi, "direction": direction, "timeout": 120 if tier == "quick" else 400,
+                   "need_both": False, "functions": ["rv/modules/multictl.py:convert_value", "rv/modules/multictl.py:MultiCtl.on_value_changed (parameter tuple captured from the real call)"],
+                   "replay_src": CV_REPLAY.format(params=params, curve=None, direction=direction, lo=out_lo, hi=out_hi) + "\n\ndef h(model=None):\n    return scan()\n"}
+        obs.append(Ob(f"L1.{len(obs)}", "", f"post-curve stage for target {mt}.{cn} [{tmin}, {tmax}]{' (compact)' if compact else ''}, quantization {q}, window {wmin}..{wmax}: "
+                      f"kernel result + {off} stays in the declared range and is monotone ({'non-increasing' if rev else 'non-decreasing'}) for every u in 0..32768",
+                      group="L1", shape=f"convert_value{tuple(params)} as called by on_value_changed", symbolic="u over 0..32768", timeout=payload["timeout"], engine="F", payload=payload))
     return obs
 
 
